@@ -45,42 +45,76 @@ Proof.
 Qed.
 
 (* ---------- where the hash functions find the IP header ---------- *)
+(* the hash functions decide the framing as try_ethernet_format does *)
+Lemma ip_start_eth f v : try_ethernet_format f = Some v -> ip_start f = 14%nat.
+Proof.
+  unfold try_ethernet_format, ip_start, ET_IPV4, ET_IPV6.
+  destruct (length f <? 14)%nat eqn:El; [discriminate|]. rewrite skipn_length.
+  destruct (ethertype f =? 2048) eqn:E4.
+  - destruct (20 <=? length f - 14)%nat eqn:E; [|discriminate]. intros _.
+    destruct (34 <=? length f)%nat eqn:E2; [reflexivity|lia].
+  - destruct (ethertype f =? 34525) eqn:E6; [|discriminate].
+    destruct (40 <=? length f - 14)%nat eqn:E; [|discriminate]. intros _.
+    destruct (54 <=? length f)%nat eqn:E2; [|lia]. cbn. now rewrite orb_true_r.
+Qed.
+
+Lemma ip_start_not_eth f : try_ethernet_format f = None -> ip_start f = 0%nat.
+Proof.
+  unfold try_ethernet_format, ip_start, ET_IPV4, ET_IPV6.
+  destruct (length f <? 14)%nat eqn:El.
+  - intros _. destruct (34 <=? length f)%nat eqn:E1; [lia|]. destruct (54 <=? length f)%nat eqn:E2; [lia|]. reflexivity.
+  - rewrite skipn_length.
+    destruct (ethertype f =? 2048) eqn:E4.
+    + destruct (20 <=? length f - 14)%nat eqn:E; [discriminate|]. intros _.
+      destruct (34 <=? length f)%nat eqn:E1; [lia|].
+      destruct (ethertype f =? 34525) eqn:E6; [lia|]. now rewrite andb_false_r.
+    + destruct (ethertype f =? 34525) eqn:E6.
+      * destruct (40 <=? length f - 14)%nat eqn:E; [discriminate|]. intros _.
+        destruct (54 <=? length f)%nat eqn:E2; [lia|]. now rewrite andb_false_r.
+      * intros _. now rewrite !andb_false_r.
+Qed.
+
+(* the former known class is empty *)
+Lemma raw_as_ethernet_empty f : raw_as_ethernet f = false.
+Proof.
+  unfold raw_as_ethernet, parse_path, parse_packet.
+  destruct (try_ethernet_format f) as [v|] eqn:Eeth; [reflexivity|].
+  rewrite (ip_start_not_eth f Eeth).
+  destruct (try_raw_ip_format f); cbn [option_map fst]; [now rewrite andb_false_r|].
+  destruct (try_null_format f); reflexivity.
+Qed.
+
 Lemma hash_framing f e :
-  analyzer_endpoints f = Some e -> c18_dom f = true -> raw_as_ethernet f = false ->
+  analyzer_endpoints f = Some e -> c18_dom f = true ->
   exists l v ip, parse_packet f = Some (l, v) /\ view_endpoints v = Some e /\
     skipn (ip_start f) f = ip /\ length f = (ip_start f + length ip)%nat /\
     ((v = View4 ip /\ version_of ip = 4) \/ (v = View6 ip /\ version_of ip = 6)).
 Proof.
-  unfold c18_dom, raw_as_ethernet, parse_path, version_consistent.
-  intros Ha. rewrite Ha. revert Ha. unfold analyzer_endpoints.
+  unfold c18_dom, parse_path, version_consistent.
+  unfold analyzer_endpoints.
   destruct (parse_packet f) as [[l v]|] eqn:Ep; [|discriminate].
-  intros Hv. cbn [option_map fst is_some andb].
+  intros Hv. cbn [option_map fst].
   revert Ep. unfold parse_packet.
   destruct (try_ethernet_format f) as [v1|] eqn:Eeth.
   - (* Ethernet *)
-    intros H; injection H as <- <-. intros Hdom _.
+    intros H; injection H as <- <-. intros Hdom.
+    pose proof (ip_start_eth f v1 Eeth) as Hs.
     revert Eeth. unfold try_ethernet_format.
     destruct (length f <? 14)%nat eqn:El; [discriminate|].
-    assert (Hst : forall k, (k <= length (skipn 14 f))%nat -> (20 <= k)%nat ->
-              (ethertype f =? ET_IPV4) || (ethertype f =? ET_IPV6) = true -> ip_start f = 14%nat).
-    { intros k Hk Hk2 Het. unfold ip_start. rewrite Het. rewrite skipn_length in Hk.
-      destruct (14 <? length f)%nat eqn:E; [reflexivity|lia]. }
     destruct (ethertype f =? ET_IPV4) eqn:E4.
     + destruct (20 <=? length (skipn 14 f))%nat eqn:E20; [|discriminate].
       intros H; injection H as H; subst v1; cbn iota in Hdom.
-      assert (Hs : ip_start f = 14%nat) by (apply (Hst 20%nat); [lia|lia|reflexivity]).
       exists LEth, (View4 (skipn 14 f)), (skipn 14 f). rewrite Hs.
       repeat split; auto. { rewrite skipn_length. lia. } left. split; [reflexivity|lia].
     + destruct (ethertype f =? ET_IPV6) eqn:E6; [|discriminate].
       destruct (40 <=? length (skipn 14 f))%nat eqn:E40; [|discriminate].
       intros H; injection H as H; subst v1; cbn iota in Hdom.
-      assert (Hs : ip_start f = 14%nat) by (apply (Hst 40%nat); [lia|lia|reflexivity]).
       exists LEth, (View6 (skipn 14 f)), (skipn 14 f). rewrite Hs.
       repeat split; auto. { rewrite skipn_length. lia. } right. split; [reflexivity|lia].
-  - destruct (try_raw_ip_format f) as [v2|] eqn:Eraw.
+  - pose proof (ip_start_not_eth f Eeth) as Hs.
+    destruct (try_raw_ip_format f) as [v2|] eqn:Eraw.
     + (* raw IP *)
-      intros H; injection H as <- <-. intros _ Hk.
-      assert (Hs : ip_start f = 0%nat) by (destruct (ip_start f =? 0)%nat eqn:E; [lia|discriminate]).
+      intros H; injection H as <- <-. intros _.
       revert Eraw. unfold try_raw_ip_format.
       destruct (length f <? 20)%nat; [discriminate|].
       destruct (version_of f =? 4) eqn:E4.
@@ -142,10 +176,10 @@ Proof.
 Qed.
 
 Lemma tcp_ident_spec f e :
-  analyzer_endpoints f = Some e -> c18_dom f = true -> raw_as_ethernet f = false ->
+  analyzer_endpoints f = Some e -> c18_dom f = true ->
   exists a, tcp_ident f = IdBytes a /\ addr_bytes a (e_src e).
 Proof.
-  intros Ha Hd Hk. destruct (hash_framing f e Ha Hd Hk) as (l & v & ip & _ & Hv & Hip & Hlen & Hver).
+  intros Ha Hd. destruct (hash_framing f e Ha Hd) as (l & v & ip & _ & Hv & Hip & Hlen & Hver).
   unfold tcp_ident. cbn zeta. rewrite Hip.
   destruct Hver as [[-> Hver]|[-> Hver]]; rewrite Hver.
   - destruct (v4_fields ip e Hv) as (Hl & _ & Hs & _).
@@ -159,11 +193,11 @@ Proof.
 Qed.
 
 Lemma tls_ident_spec f e :
-  analyzer_endpoints f = Some e -> c18_dom f = true -> raw_as_ethernet f = false ->
+  analyzer_endpoints f = Some e -> c18_dom f = true ->
   exists a b, tls_ident f = Some (IdFlow a b (e_sport e) (e_dport e)) /\
               addr_bytes a (e_src e) /\ addr_bytes b (e_dst e).
 Proof.
-  intros Ha Hd Hk. destruct (hash_framing f e Ha Hd Hk) as (l & v & ip & _ & Hv & Hip & Hlen & Hver).
+  intros Ha Hd. destruct (hash_framing f e Ha Hd) as (l & v & ip & _ & Hv & Hip & Hlen & Hver).
   unfold tls_ident. cbn zeta. rewrite Hip.
   destruct Hver as [[-> Hver]|[-> Hver]]; rewrite Hver.
   - destruct (v4_fields ip e Hv) as (Hl & Hp & Hs & Hdst & Hoff & Hsp & Hdp).
@@ -181,11 +215,11 @@ Proof.
 Qed.
 
 Lemma http_ident_spec f e :
-  analyzer_endpoints f = Some e -> c18_dom f = true -> raw_as_ethernet f = false ->
+  analyzer_endpoints f = Some e -> c18_dom f = true ->
   exists a b, http_ident f = ordered_flow a (e_sport e) b (e_dport e) /\
               addr_bytes a (e_src e) /\ addr_bytes b (e_dst e) /\ length a = length b.
 Proof.
-  intros Ha Hd Hk. destruct (hash_framing f e Ha Hd Hk) as (l & v & ip & _ & Hv & Hip & Hlen & Hver).
+  intros Ha Hd. destruct (hash_framing f e Ha Hd) as (l & v & ip & _ & Hv & Hip & Hlen & Hver).
   pose proof (endpoints_same_family _ _ Hv) as Hfam.
   unfold http_ident. cbn zeta. rewrite Hip.
   destruct Hver as [[-> Hver]|[-> Hver]]; rewrite Hver.
@@ -235,15 +269,15 @@ Section Affinity.
 
   Theorem affinity_tcp n p q :
     0 < n -> identity_tcp p = identity_tcp q -> identity_tcp p <> None ->
-    c18_dom p = true -> c18_dom q = true -> raw_as_ethernet p = false -> raw_as_ethernet q = false ->
+    c18_dom p = true -> c18_dom q = true ->
     tcp_worker SipH n p = tcp_worker SipH n q /\ exists w, tcp_worker SipH n p = Some w /\ w < n.
   Proof.
-    unfold identity_tcp. intros Hn Heq Hne Dp Dq Kp Kq.
+    unfold identity_tcp. intros Hn Heq Hne Dp Dq.
     destruct (analyzer_endpoints p) as [e1|] eqn:E1; [|now elim Hne].
     destruct (analyzer_endpoints q) as [e2|] eqn:E2; [|discriminate]. cbn [option_map] in Heq.
     injection Heq as Heq.
-    destruct (tcp_ident_spec p e1 E1 Dp Kp) as (a1 & I1 & A1).
-    destruct (tcp_ident_spec q e2 E2 Dq Kq) as (a2 & I2 & A2).
+    destruct (tcp_ident_spec p e1 E1 Dp) as (a1 & I1 & A1).
+    destruct (tcp_ident_spec q e2 E2 Dq) as (a2 & I2 & A2).
     rewrite <- Heq in A2. rewrite (addr_bytes_inj _ _ _ A2 A1) in I2.
     unfold tcp_worker. rewrite I1, I2. split; [reflexivity|].
     eexists; split; [reflexivity | now apply rem_or_0_lt].
@@ -251,15 +285,15 @@ Section Affinity.
 
   Theorem affinity_tls n p q :
     0 < n -> identity_tls p = identity_tls q -> identity_tls p <> None ->
-    c18_dom p = true -> c18_dom q = true -> raw_as_ethernet p = false -> raw_as_ethernet q = false ->
+    c18_dom p = true -> c18_dom q = true ->
     tls_worker SipH n p = tls_worker SipH n q /\ exists w, tls_worker SipH n p = Some w /\ w < n.
   Proof.
-    unfold identity_tls. intros Hn Heq Hne Dp Dq Kp Kq.
+    unfold identity_tls. intros Hn Heq Hne Dp Dq.
     destruct (analyzer_endpoints p) as [e1|] eqn:E1; [|now elim Hne].
     destruct (analyzer_endpoints q) as [e2|] eqn:E2; [|discriminate].
     injection Heq as Heq. subst e2.
-    destruct (tls_ident_spec p e1 E1 Dp Kp) as (a1 & b1 & I1 & A1 & B1).
-    destruct (tls_ident_spec q e1 E2 Dq Kq) as (a2 & b2 & I2 & A2 & B2).
+    destruct (tls_ident_spec p e1 E1 Dp) as (a1 & b1 & I1 & A1 & B1).
+    destruct (tls_ident_spec q e1 E2 Dq) as (a2 & b2 & I2 & A2 & B2).
     rewrite (addr_bytes_inj _ _ _ A2 A1), (addr_bytes_inj _ _ _ B2 B1) in I2.
     unfold tls_worker. rewrite I1, I2. split; [reflexivity|]. cbn [option_map].
     eexists; split; [reflexivity | now apply rem_or_0_lt].
@@ -267,12 +301,12 @@ Section Affinity.
 
   Lemma http_ident_direction p q e :
     analyzer_endpoints p = Some e -> analyzer_endpoints q = Some (flip e) ->
-    c18_dom p = true -> c18_dom q = true -> raw_as_ethernet p = false -> raw_as_ethernet q = false ->
+    c18_dom p = true -> c18_dom q = true ->
     http_ident p = http_ident q.
   Proof.
-    intros E1 E2 Dp Dq Kp Kq.
-    destruct (http_ident_spec p e E1 Dp Kp) as (a1 & b1 & I1 & A1 & B1 & L1).
-    destruct (http_ident_spec q (flip e) E2 Dq Kq) as (a2 & b2 & I2 & A2 & B2 & L2).
+    intros E1 E2 Dp Dq.
+    destruct (http_ident_spec p e E1 Dp) as (a1 & b1 & I1 & A1 & B1 & L1).
+    destruct (http_ident_spec q (flip e) E2 Dq) as (a2 & b2 & I2 & A2 & B2 & L2).
     cbn [flip e_src e_dst e_sport e_dport] in *.
     rewrite (addr_bytes_inj _ _ _ A2 B1), (addr_bytes_inj _ _ _ B2 A1) in I2.
     rewrite I1, I2. now apply ordered_flow_sym.
@@ -280,17 +314,17 @@ Section Affinity.
 
   Theorem affinity_http n p q :
     0 < n -> identity_http p = identity_http q -> identity_http p <> None ->
-    c18_dom p = true -> c18_dom q = true -> raw_as_ethernet p = false -> raw_as_ethernet q = false ->
+    c18_dom p = true -> c18_dom q = true ->
     http_worker SipH n p = http_worker SipH n q /\ exists w, http_worker SipH n p = Some w /\ w < n.
   Proof.
-    unfold identity_http. intros Hn Heq Hne Dp Dq Kp Kq.
+    unfold identity_http. intros Hn Heq Hne Dp Dq.
     destruct (analyzer_endpoints p) as [e1|] eqn:E1; [|now elim Hne].
     destruct (analyzer_endpoints q) as [e2|] eqn:E2; [|discriminate]. cbn [option_map] in Heq.
     injection Heq as Heq.
     assert (Hid : http_ident p = http_ident q).
     { destruct (undirected_cases _ _ Heq) as [->| ->].
-      - destruct (http_ident_spec p e1 E1 Dp Kp) as (a1 & b1 & I1 & A1 & B1 & L1).
-        destruct (http_ident_spec q e1 E2 Dq Kq) as (a2 & b2 & I2 & A2 & B2 & L2).
+      - destruct (http_ident_spec p e1 E1 Dp) as (a1 & b1 & I1 & A1 & B1 & L1).
+        destruct (http_ident_spec q e1 E2 Dq) as (a2 & b2 & I2 & A2 & B2 & L2).
         rewrite (addr_bytes_inj _ _ _ A2 A1), (addr_bytes_inj _ _ _ B2 B1) in I2. congruence.
       - eapply http_ident_direction; eauto. }
     unfold http_worker. rewrite Hid. split; [reflexivity|].
@@ -298,14 +332,21 @@ Section Affinity.
   Qed.
 
   (* the two directions of one connection, stated directly *)
+  Corollary http_both_directions_all n p q e :
+    analyzer_endpoints p = Some e -> analyzer_endpoints q = Some (flip e) ->
+    c18_dom p = true -> c18_dom q = true ->
+    http_worker SipH n p = http_worker SipH n q.
+  Proof. intros. unfold http_worker. erewrite http_ident_direction; eauto. Qed.
+
+  (* old signature (the two class hypotheses are now vacuous), kept for Proofs/HttpInstances.v *)
   Corollary http_both_directions n p q e :
     analyzer_endpoints p = Some e -> analyzer_endpoints q = Some (flip e) ->
     c18_dom p = true -> c18_dom q = true -> raw_as_ethernet p = false -> raw_as_ethernet q = false ->
     http_worker SipH n p = http_worker SipH n q.
-  Proof. intros. unfold http_worker. erewrite http_ident_direction; eauto. Qed.
+  Proof. intros E1 E2 Dp Dq _ _. exact (http_both_directions_all n p q e E1 E2 Dp Dq). Qed.
 End Affinity.
 
-(* ---------- the known class raw_as_ethernet is a real counterexample ---------- *)
+(* ---------- the former known class raw_as_ethernet: its witness now obeys the affinity law ---------- *)
 Definition hexb (s : bytes) : bytes := match read_hex s with Some b => b | None => [] end.
 (* raw IPv4, 134.221.16.7:40000 -> 10.0.0.2:80, SYN, 40 bytes; the two packets differ in the last byte only *)
 Definition raw_86dd_a : bytes :=
@@ -314,10 +355,11 @@ Definition raw_86dd_b : bytes :=
   hexb (bs "45000028000040004006000086dd10070a0000029c40005000000001000000005002ffff00000001").
 Definition toy_hash (i : ident) : N := match i with IdBytes b => be_N b | IdFlow _ _ _ _ => 0 end.
 
-Lemma raw_as_ethernet_refutes_affinity :
+Lemma raw_as_ethernet_former_witness_agrees :
   identity_tcp raw_86dd_a = identity_tcp raw_86dd_b /\ identity_tcp raw_86dd_a = Some (V4 2262634503) /\
   c18_dom raw_86dd_a = true /\ c18_dom raw_86dd_b = true /\
-  raw_as_ethernet raw_86dd_a = true /\ raw_as_ethernet raw_86dd_b = true /\
-  tcp_worker toy_hash 2 raw_86dd_a = Some 0 /\ tcp_worker toy_hash 2 raw_86dd_b = Some 1 /\
-  tls_worker toy_hash 2 raw_86dd_a = None /\ identity_tls raw_86dd_a <> None.
+  tcp_ident raw_86dd_a = tcp_ident raw_86dd_b /\ http_ident raw_86dd_a = http_ident raw_86dd_b /\
+  tls_ident raw_86dd_a = tls_ident raw_86dd_b /\ tls_ident raw_86dd_a <> None /\
+  tcp_worker toy_hash 2 raw_86dd_a = tcp_worker toy_hash 2 raw_86dd_b /\
+  tls_worker toy_hash 2 raw_86dd_a = Some 0.
 Proof. vm_compute. repeat split; try reflexivity. discriminate. Qed.
